@@ -5,7 +5,7 @@ From Coq Require Import List Bool ZArith NArith Lia Arith.
 Import ListNotations.
 From Gen Require Import SelGen.
 From Model Require Import Key Sel GFI GFIEdit.
-From Proofs Require Import GFIBase GFIRef GFIWf GFIConsistent GFISim GFIEditProofs GFIRoundtripAll GFIRoundtripRegen GFITags.
+From Proofs Require Import GFIBase GFIRef GFIWf GFIConsistent GFISim GFIEditProofs GFIRoundtripAll GFIRoundtripRegen GFIRegenIdentity GFITags.
 Open Scope Z_scope.
 
 Definition ex_kernel : gf :=
@@ -120,3 +120,9 @@ Proof. sim_witness [VZ 2; VA [VB true; VB false; VB true]]. Qed.
 Lemma ex_masked_iterate_final_wft : let t := tr_of (g_masked_iterate_final ex_step) [VZ 2; VA [VB true; VB false; VB true]] in
   wft (g_masked_iterate_final ex_step) t /\ length (t_choices t) = 3%nat.
 Proof. sim_witness [VZ 2; VA [VB true; VB false; VB true]]. Qed.
+
+(* Regenerate with nothing selected: programs with a scan qualify too *)
+Lemma ex_r_rssimple : rssimple ex_r.
+Proof. simpl. tauto. Qed.
+Lemma ex_scan_rssimple : rssimple ex_scan /\ wfg ex_scan.
+Proof. simpl. unfold heads_ok. simpl. repeat split; try (repeat constructor; simpl; intuition congruence); try (intros E; discriminate). Qed.
